@@ -17,7 +17,7 @@ REPO = "/repo"
 
 
 def sh(cmd, cwd=None, env=None, timeout=1800):
-    p = subprocess.run(cmd, shell=True, cwd=cwd, env=env, capture_output=True, text=True, timeout=timeout)
+    p = subprocess.run(cmd, shell=True, cwd=cwd, env=env, capture_output=True, text=True, timeout=timeout, encoding="utf-8", errors="replace")
     return p.returncode, p.stdout + p.stderr
 
 
